@@ -45,6 +45,10 @@ type RaceResult struct {
 	Clock     string         `json:"clock"`
 	Acts      map[int]string `json:"acts"`     // goroutine -> "req s" / "del s"
 	Statuses  map[int]int    `json:"statuses"` // goroutine -> HTTP status (-1 panic, 0 never returned)
+	Tmo       int64          `json:"tmo"`
+	Starts    map[int]int64  `json:"starts"`     // goroutine -> instant (ns since the scenario began) at which it sent its request
+	Fins      map[int]int64  `json:"fins"`       // goroutine -> instant at which its handler returned
+	CreatedAt []int64        `json:"created_at"` // instant at which each slot's session was created
 	Created   []string       `json:"created"`  // server session ids, by slot
 	Ends      map[string]int `json:"ends"`     // ConnEnd deliveries per server session id after settling
 	EndsEarly map[string]int `json:"ends_early"`
@@ -90,7 +94,9 @@ func dur(tmo, pm, ns int64) time.Duration { return time.Duration(tmo*pm/1000 + n
 
 // RunScenario executes one scenario on a fresh handler + LockServer. In a bubble when sc.Clock is virtual.
 func RunScenario(sc *Scenario) RaceResult {
-	res := RaceResult{ID: sc.ID, Clock: sc.Clock, Acts: map[int]string{}, Statuses: map[int]int{}, Ends: map[string]int{}, EndsEarly: map[string]int{}}
+	res := RaceResult{ID: sc.ID, Clock: sc.Clock, Acts: map[int]string{}, Statuses: map[int]int{}, Ends: map[string]int{}, EndsEarly: map[string]int{},
+		Tmo: sc.Tmo, Starts: map[int]int64{}, Fins: map[int]int64{}}
+	t0 := time.Now()
 	virtual := sc.Clock == "virtual"
 	progCase.Store(sc.ID)
 	progTick.Add(1)
@@ -108,6 +114,7 @@ func RunScenario(sc *Scenario) RaceResult {
 		}
 		cookies = append(cookies, ck)
 		res.Created = append(res.Created, R.wrap.lastTagged())
+		res.CreatedAt = append(res.CreatedAt, int64(time.Since(t0)))
 	}
 	var mu sync.Mutex
 	// yield point after timerMgr.Reset: one-shot gates by cookie
@@ -170,12 +177,14 @@ func RunScenario(sc *Scenario) RaceResult {
 				ck := cookies[s%len(cookies)]
 				var code int
 				var body string
+				started := int64(time.Since(t0))
 				if act == "del" {
 					code, body, _ = serveDirect(h, "DELETE", "/session", "", &ck)
 				} else {
 					code, body, _ = serveDirect(h, "POST", "/v1/lock", `{"name":"`+name+`"}`, &ck)
 				}
 				mu.Lock()
+				res.Starts[k], res.Fins[k] = started, int64(time.Since(t0))
 				res.Statuses[k] = code
 				if code == -1 {
 					res.Panic = body
@@ -342,6 +351,13 @@ func FixedScenarios(vtmo, rtmo int64) []Scenario {
 			RStep{Op: "start", K: 1, S: 0, Act: "req"}, RStep{Op: "spin"},
 			RStep{Op: "sleep", Pm: 1500}, RStep{Op: "start", K: 2, S: 1, Act: "req"}, RStep{Op: "spin"},
 			RStep{Op: "release", K: 0}))
+		// a request that arrives before its session's deadline but is processed after the idle timer fired (it waits for the
+		// table mutex, the timer's function queues behind it); then a request shortly afterwards
+		out = append(out, r(fmt.Sprintf("early-request-processed-after-expiry-%d", i), 2,
+			RStep{Op: "start", K: 0, S: 0, Act: "req", Hold: true}, RStep{Op: "wait", K: 0},
+			RStep{Op: "start", K: 1, S: 1, Act: "req", Pm: 900},
+			RStep{Op: "sleep", Pm: 1300}, RStep{Op: "release", K: 0},
+			RStep{Op: "sleep", Pm: 150}, RStep{Op: "start", K: 2, S: 1, Act: "req"}, RStep{Op: "spin"}))
 		out = append(out, r(fmt.Sprintf("inflight-expiry-delete-%d", i), 1,
 			RStep{Op: "start", K: 0, S: 0, Act: "req", Gate: true}, RStep{Op: "wait", K: 0},
 			RStep{Op: "sleep", Pm: 1200}, RStep{Op: "start", K: 1, S: 0, Act: "del"}, RStep{Op: "spin"},
